@@ -221,15 +221,42 @@ def run_lian_lang(scratch, lang, files, extra_inputs=()):
     return res, raw, log
 
 
+INT_SLASH = {"java", "go", "c"}      # languages whose `/` on two integers is integer division
+
+
+def int_slash(tree):
+    """the operator `/` of a Java / Go / C unit is integer division: sent to the driver as `//` (on the common subset —
+    non-negative dividend, positive divisor — floor and truncation agree)"""
+    if isinstance(tree, list):
+        return [int_slash(x) for x in tree]
+    if isinstance(tree, dict):
+        return {k: ("//" if k == "operator" and v == "/" else int_slash(v)) for k, v in tree.items()}
+    return tree
+
+
 def girexec(items):
     """items: [(structured program, entry, argvs)] -> [[(outs, result)...] | error string]  (driver "girexec")"""
     reqs = [{"m": "girexec", "prog": prog, "entry": entry, "argvs": argvs, "fuel": FUEL} for prog, entry, argvs in items]
-    out = []
-    for rep in drv_batch(reqs) if reqs else []:
+    if not reqs:
+        return []
+
+    def conv(rep):
         if "ok" in rep:
-            out.append([(o["out"], o["result"]) for o in rep["ok"]])
-        else:
-            out.append("driver: " + str(rep.get("err"))[:300])
+            return [(o["out"], o["result"]) for o in rep["ok"]]
+        return "driver: " + str(rep.get("err"))[:300]
+    try:
+        return [conv(rep) for rep in drv_batch(reqs)]
+    except RuntimeError:
+        pass
+    # the driver process died on one of the programs (e.g. stack exhaustion on rows that recurse without bound): run
+    # each program in its own process; the one that kills the driver is reported as such (a mismatch)
+    out = []
+    for req in reqs:
+        try:
+            p = subprocess.run([common.DRV], input=json.dumps(req) + "\n", capture_output=True, text=True, timeout=20)
+            out.append(conv(json.loads(p.stdout.split("\n")[0])))
+        except (subprocess.TimeoutExpired, ValueError, IndexError):
+            out.append("driver: the GIR reference interpreter crashed or timed out on these rows")
     return out
 
 
@@ -268,7 +295,7 @@ def lang_job(arg):
             else:
                 r["gir"] = g
                 r["decl"] = decl_check(g, p, lang)
-                items.append((g, p["entry"], p["argvs"]))
+                items.append((int_slash(g) if lang in INT_SLASH else g, p["entry"], p["argvs"]))
                 where.append(len(out["results"]))
             out["results"].append(r)
         for j, o in zip(where, girexec(items)):
@@ -780,7 +807,8 @@ def run(ctx):
             small, det2 = p, det
         ctx.violation({"what": f"language {l}: " + det2["verdict"][1] + " (not predicted by any recorded open finding)",
                        "language": l, "generator_seed": seed, "tier": p["tier"],
-                       "program": c02gen.core_json(small), "entry": small["entry"], "argvs": small["argvs"],
+                       "program": c02gen.core_json(small), "program_with_rendering_hints": small,
+                       "entry": small["entry"], "argvs": small["argvs"],
                        "source": c02gen.render(small, l), "python_rendering": c02gen.render(small, "python"),
                        "evalcore": c01.trim(det2["evalcore"]), "real_gir_exec": c01.trim(det2["real"]), "gir": det2["gir"],
                        "declaration_problems": det2["decl"],
@@ -842,7 +870,8 @@ def replay(rp):
     common.use_repo()
     common.LeanSide.build()
     if "program" in rp and "language" in rp and "entry" in rp:
-        prog = dict(rp["program"], entry=rp["entry"], argvs=rp["argvs"], tier=rp.get("tier", 3))
+        prog = dict(rp.get("program_with_rendering_hints") or rp["program"], entry=rp["entry"], argvs=rp["argvs"],
+                    tier=rp.get("tier", 3))
         open_ids = [f["id"] for f in json.load(open(os.path.join(common.VERIF, "known_findings.json")))["findings"]
                     if f["property"] == "C02" and f.get("status", "open") == "open"]
         fails, det = fails_in(prog, rp["language"], open_ids)
